@@ -3,5 +3,5 @@ CONSTANTS
     Configs <- ThoroughConfigs
     MaxOthers = 2
     FairSelect = FALSE
-INVARIANTS TypeOK InFlightDelivered ClosedOnlyWhenDrained GuardAfterWindDown ListenerIndependence CompletionNotEarly ToldWhenWound NotToldUnasked NoHang
+INVARIANTS TypeOK InFlightDelivered ClosedOnlyWhenDrained GuardAfterWindDown ListenerIndependence CompletionNotEarly ToldWhenWound NotToldUnasked HeldDelivered NoHang
 CHECK_DEADLOCK FALSE
